@@ -32,7 +32,32 @@ type c02Case struct {
 	// Alt: further single-condition entries for the same syscall and argument (alternatives, OR):
 	// the entry set matches iff any of the conditions holds.
 	Alt []c02Alt `json:"alt,omitempty"`
+	// Before / Between: single-condition entries for OTHER syscalls placed in the same group before the entry under
+	// test and between it and its alternatives; Plain: other syscalls listed without conditions in the group. None of
+	// them speaks about the event's syscall, so the expected decision is unchanged.
+	Before  []c02Ctx `json:"before,omitempty"`
+	Between []c02Ctx `json:"between,omitempty"`
+	Plain   []string `json:"plain,omitempty"`
 }
+
+type c02Ctx struct {
+	Name string `json:"name"`
+	Arg  uint32 `json:"arg"`
+	Op   string `json:"op"`
+	Val  uint64 `json:"val"`
+}
+
+// c02Known: the name is in the vendored table and in the package's table of the architecture.
+func c02Known(arch, name string) bool {
+	for _, n := range gen.Universe(arch) {
+		if n == name {
+			return true
+		}
+	}
+	return false
+}
+
+var c02OtherNames = []string{"getpid", "getuid", "gettid", "getgid", "geteuid", "getegid", "getpgrp", "sync", "umask", "alarm"}
 
 type c02Alt struct {
 	Op  string `json:"op"`
@@ -85,10 +110,48 @@ func checkC02(raw json.RawMessage) (ev.Result, error) {
 	} else if seccomp.VerifByteOrder() != nativeOrder {
 		return ev.Result{}, ev.Inconclusivef("byte order override leaked between cases")
 	}
-	p := spec.Policy{Arch: c.Arch, Default: c02Default, Groups: []spec.Group{{Action: c02Matched,
-		Conds: []spec.CondEntry{{Name: c02Syscall, Conds: []spec.Cond{{Arg: c.Arg, Op: c.Op, Val: c.Val}}}}}}}
-	for _, a := range c.Alt {
-		p.Groups[0].Conds = append(p.Groups[0].Conds, spec.CondEntry{Name: c02Syscall, Conds: []spec.Cond{{Arg: c.Arg, Op: a.Op, Val: a.Val}}})
+	p := spec.Policy{Arch: c.Arch, Default: c02Default, Groups: []spec.Group{{Action: c02Matched}}}
+	g := &p.Groups[0]
+	ctx := func(list []c02Ctx) error {
+		for _, x := range list {
+			if x.Name == c02Syscall {
+				return ev.Inconclusivef("context entry for the syscall under test")
+			}
+			if !c02Known(c.Arch, x.Name) {
+				continue // not a syscall of this architecture
+			}
+			g.Conds = append(g.Conds, spec.CondEntry{Name: x.Name, Conds: []spec.Cond{{Arg: x.Arg, Op: x.Op, Val: x.Val}}})
+		}
+		return nil
+	}
+	if err := ctx(c.Before); err != nil {
+		return ev.Result{}, err
+	}
+	g.Conds = append(g.Conds, spec.CondEntry{Name: c02Syscall, Conds: []spec.Cond{{Arg: c.Arg, Op: c.Op, Val: c.Val}}})
+	for i, a := range c.Alt {
+		if i < len(c.Between) {
+			if err := ctx(c.Between[i : i+1]); err != nil {
+				return ev.Result{}, err
+			}
+		}
+		g.Conds = append(g.Conds, spec.CondEntry{Name: c02Syscall, Conds: []spec.Cond{{Arg: c.Arg, Op: a.Op, Val: a.Val}}})
+	}
+	if len(c.Between) > len(c.Alt) {
+		if err := ctx(c.Between[len(c.Alt):]); err != nil {
+			return ev.Result{}, err
+		}
+	}
+	for _, n := range c.Plain {
+		used := n == c02Syscall
+		for _, ce := range g.Conds {
+			used = used || ce.Name == n
+		}
+		for _, m := range g.Names {
+			used = used || m == n
+		}
+		if c02Known(c.Arch, n) && !used {
+			g.Names = append(g.Names, n)
+		}
 	}
 	cp, cerr, pan := compilePolicy(&p)
 	if pan != nil {
@@ -145,6 +208,12 @@ func checkC02(raw json.RawMessage) (ev.Result, error) {
 	}
 	if len(c.Alt) > 0 {
 		res.Classes = append(res.Classes, "alternative-entries-for-the-same-argument")
+	}
+	if len(c.Before) > 0 || len(c.Between) > 0 || len(c.Plain) > 0 {
+		res.Classes = append(res.Classes, "entry-among-entries-for-other-syscalls")
+	}
+	if len(c.Between) > 0 && len(c.Alt) > 0 {
+		res.Classes = append(res.Classes, "alternatives-not-adjacent")
 	}
 	if holds {
 		res.Classes = append(res.Classes, "relation-holds")
@@ -264,6 +333,29 @@ func drawC02(t *rapid.T) c02Case {
 		if rapid.Bool().Draw(t, "altCross") {
 			pick := c.Alt[rapid.IntRange(0, len(c.Alt)-1).Draw(t, "altPick")].Val
 			c.Act = (pick&0xffffffff)<<32 | uint64(rapid.IntRange(0, 9).Draw(t, "actLo"))
+		}
+	}
+	if rapid.IntRange(0, 2).Draw(t, "withCtx") == 0 {
+		// the entry's place in its group: entries for other syscalls before it, between it and its alternatives, and
+		// other syscalls listed plainly; their operands reuse the operand under test
+		drawCtx := func(label string, max int) []c02Ctx {
+			var out []c02Ctx
+			n := rapid.IntRange(0, max).Draw(t, label+"N")
+			for i := 0; i < n; i++ {
+				x := c02Ctx{Name: c02OtherNames[rapid.IntRange(0, len(c02OtherNames)-1).Draw(t, label+"Name")],
+					Arg: uint32(rapid.IntRange(0, 5).Draw(t, label+"Arg")), Op: spec.Ops[rapid.IntRange(0, 7).Draw(t, label+"Op")], Val: c.Val}
+				if rapid.Bool().Draw(t, label+"OtherVal") {
+					x.Val = u64(label + "Val")
+				}
+				out = append(out, x)
+			}
+			return out
+		}
+		c.Before = drawCtx("before", 9)
+		c.Between = drawCtx("between", 4)
+		np := rapid.IntRange(0, 3).Draw(t, "nPlain")
+		for i := 0; i < np; i++ {
+			c.Plain = append(c.Plain, c02OtherNames[rapid.IntRange(0, len(c02OtherNames)-1).Draw(t, "plainName")])
 		}
 	}
 	for k := range c.Noise {
